@@ -169,6 +169,7 @@ def loader_family(tier, seed):
         "renamed": [("a", "R", "K", "a_param"), ("b", "DV", "W", "b_param")],
         "three": [("a", "R", "K", "a"), ("b", "R", "K", "b"), ("c", "DV", "K", "c")],
         "r_dv_dv": [("a", "R", "K", "a"), ("b", "DV", "K", "b"), ("c", "DVN", "K", "c")],
+        "dv_only": [("a", "DV", "K", "a")],     # with crown skip_opt: a model whose only field is skipped (empty root crown)
     }
     # crowns for 1..3 fields named a,b,c(,d)
     def crowns_for(ids, opt_ids):
@@ -217,9 +218,12 @@ def loader_family(tier, seed):
                             ("collect", "forbid", "saturate"), ("skip", "skip", "kwargs")]
             if quick:
                 # keep the quick family small but covering: every crown kind; policies and modes on a subset
-                if sname not in ("r2", "r_dv", "r_o", "p_k_dv_w", "r_dvo", "r_dfo", "renamed", "r_dv_dv"):
+                if sname not in ("r2", "r_dv", "r_o", "p_k_dv_w", "r_dvo", "r_dfo", "renamed", "r_dv_dv", "dv_only"):
                     continue
-                if sname not in ("r2", "r_o"):
+                if sname == "dv_only":
+                    if cname != "skip_opt":
+                        continue
+                elif sname not in ("r2", "r_o"):
                     pol_variants = pol_variants[:1] if cname != "flat" else pol_variants[:3]
                 elif cname not in ("flat", "nested2", "list", "dict_in_list", "list_req_dict_opt"):
                     pol_variants = pol_variants[:1]
@@ -416,8 +420,8 @@ def dumper_family(tier, seed):
         else:
             crowns.append(("skip_opt", D({f"k_{i}": F(i) for i in ids if i not in opt})))
         for cname, cj in crowns:
-            for move in (None, "extract", "targets"):
-                if move == "targets" and cname not in ("flat", "nested2"):
+            for move in (None, "extract", "targets", "targets2", "targets2o"):
+                if move in ("targets", "targets2", "targets2o") and cname not in ("flat", "nested2"):
                     continue
                 for dt in modes:
                     try:
@@ -428,6 +432,10 @@ def dumper_family(tier, seed):
                         elif move == "targets":
                             fields.append(mk_field("e", "R"))
                             extra_move = ExtraTargets(("e",))
+                        elif move in ("targets2", "targets2o"):
+                            fields.append(mk_field("e", "R"))
+                            fields.append(mk_field("e2", "R" if move == "targets2" else "O"))
+                            extra_move = ExtraTargets(("e", "e2"))
                         shape = OutputShape(fields=tuple(fields), overriden_types=frozenset())
                         layout = OutputNameLayout(crown=build(cj), extra_move=extra_move)
                         dumpers = {}
@@ -450,7 +458,7 @@ def dumper_family(tier, seed):
                         continue
                     emit({
                         "kind": "dumper", "shape_name": sname, "crown_name": cname,
-                        "fields": [{"id": f.id, "kind": k} for f, k in zip(fields, [s[1] for s in spec] + ["R"])],
+                        "fields": [{"id": f.id, "kind": k} for f, k in zip(fields, [s[1] for s in spec] + ["R", "O" if move == "targets2o" else "R"])],
                         "crown": cj, "extra_move": move, "debug_trail": dt.name,
                         "as_is": sorted(k for k, v in dumpers.items() if v is as_is_stub),
                         "source": src, "origins": take_origins(src),
